@@ -48,6 +48,9 @@ def functions():
         "dssp": dssp, "kabsch_sander": ks, "wernet_nilsson": lambda t: wn(t)[1],
         "neighbors": nbr, "neighborlist": nlist,
         "contacts_closest": lambda t: md.compute_contacts(t, [[0, 5], [2, 9], [1, 20]], scheme="closest-heavy")[0],
+        # soft minimum over the atom pairs of each residue pair (a per-frame log-sum-exp; residue pairs at all separations)
+        "contacts_softmin": lambda t: md.compute_contacts(t, [[i, j] for i in range(0, 22, 3) for j in range(i + 3, 22, 4)], scheme="closest-heavy", soft_min=True)[0],
+        "contacts_softmin_beta5": lambda t: md.compute_contacts(t, [[0, 5], [2, 9], [1, 20], [3, 12]], scheme="closest", soft_min=True, soft_min_beta=5.0)[0],
         "contacts_ca": lambda t: md.compute_contacts(t, "all", scheme="ca")[0],
         "rg": lambda t: md.compute_rg(t), "drid": lambda t: md.compute_drid(t, atom_indices=np.arange(0, 60, 3)),
         "center_of_mass": lambda t: md.compute_center_of_mass(t), "gyration_tensor": lambda t: md.compute_gyration_tensor(t),
